@@ -147,3 +147,29 @@ Proof. exact (conj ex2_side (conj ex2_valid (conj ex2_blocks (conj ex2_has_forke
 
 Print Assumptions C10_model_refines_reference.
 Print Assumptions C10_full_for_the_model.
+
+(* ---- L1 without the canonical-order side condition: validator list in ANY order ----
+   link_side_raw vals D: no duplicate validator ids, no zero weights (what ValidatorsBuilder produces),
+   total weight < 2^31, ids not temporary ids of the run's Builds, fewer than 2^192 events.
+   The code sorts the list (mk_vals); the reference is equivariant under that re-arrangement
+   (proofs/LinkEquiv.v: reference_pn; proofs/LinkPerm.v: mk_vals_canon). *)
+From LV Require Import proofs.LinkPerm proofs.LinkEquiv proofs.LinkRaw.
+
+Theorem C10_model_refines_reference_any_order : forall cap lam,
+  forall vals D, link_side_raw vals D -> valid_run vals D -> abft_run cap lam vals D = reference vals D.
+Proof. exact link_full_raw. Qed.
+
+(* the reference does not depend on the order in which the validators are listed *)
+Theorem C10_reference_validator_order_independent : forall vals, canon_order (vals' vals) = seq 0 (length vals) ->
+  forall D, valid_run vals D ->
+    valid_run (vals' vals) (map (pe vals) D) /\ reference (vals' vals) (map (pe vals) D) = reference vals D.
+Proof. exact reference_pn. Qed.
+
+Example C10_model_example_any_order :
+  mk_vals ex_vals <> ex_vals /\ link_side_raw ex_vals ex3_D /\ valid_run ex_vals ex3_D /\
+  snd (reference ex_vals ex3_D) = [(1, 1000, []); (2, 1015, [37094])] /\
+  abft_run 200 (fun _ => 0) ex_vals ex3_D = reference ex_vals ex3_D.
+Proof. exact (conj ex3_not_canonical (conj ex3_side (conj ex3_valid (conj ex3_blocks ex3_refines_by_evaluation)))). Qed.
+
+Print Assumptions C10_model_refines_reference_any_order.
+Print Assumptions C10_reference_validator_order_independent.
